@@ -39,6 +39,8 @@ def _on(ex):
 
 
 def _ty(ex, v):
+    if isinstance(v, CArrV):
+        return TCArr(ex.st.heap[v.re.id].rank)
     if isinstance(v, Ref):
         o = ex.st.heap[v.id]
         if isinstance(o, ArrObj):
@@ -185,7 +187,24 @@ class TCArr(T):
         self.part = TArr("f", rank)
 
     def sort(self):
-        raise Unsupported("complex arrays cannot be stored in symbolic containers")
+        key = f"CArr{self.rank}"
+        if key not in _dt_cache:
+            dt = z3.Datatype(key)
+            dt.declare("mk_" + key, (f"c_re{self.rank}", self.part.sort()), (f"c_im{self.rank}", self.part.sort()))
+            _dt_cache[key] = dt.create()
+        return _dt_cache[key]
+
+    def embed(self, st, v):
+        if isinstance(v, CArrV):
+            dt = self.sort()
+            return dt.constructor(0)(self.part.embed(st, v.re), self.part.embed(st, v.im))
+        if isinstance(v, SV) and v.ty == self:
+            return v.term
+        raise Unsupported(f"cannot embed {v!r} as {self}")
+
+    def project(self, st, term, origin=None):
+        dt = self.sort()
+        return CArrV(self.part.project(st, dt.accessor(0, 0)(term)), self.part.project(st, dt.accessor(0, 1)(term)))
 
     def fresh(self, st, hint):
         re = self.part.fresh(st, hint + "_re")
@@ -441,7 +460,7 @@ class C16Models:
                 return t, t.embed(st, v)
 
             t, e = _no_fork_eval(ex, body, "comprehension element", node.lineno, z3.And(0 <= bi, bi < seq.n))
-            if not isinstance(t, TArr):
+            if not isinstance(t, (TArr, TCArr)):
                 return NotImplemented  # the generic model of models.py handles scalars
             i = z3.Int("i!c")
             return st.alloc(ListObj(t, seq.n, z3.Lambda([i], z3.substitute(e, (bi, i)))))
@@ -504,13 +523,26 @@ class C16Models:
         return NotImplemented
 
     def call_method(self, ex, recv, name, args, kwargs, lineno):
+        if _on(ex) and name == "np.sum" and not args and not kwargs and getattr(ex.contract, "one_hot_sum", None) is not None \
+                and isinstance(recv, Ref) and isinstance(ex.st.heap.get(recv.id), ArrObj) and ex.st.heap[recv.id].rank == 1:
+            # sum of a vector with exactly one non-zero entry: the contract names the position r and the entry c (as terms over the locals);
+            # the obligation `one-hot` is generated and the cited lemma (sum of a one-hot vector = its entry, proved by induction as base + step
+            # SMT lemmas over the prefix-sum function of npmodel: contracts/c16_complex.OneHotSumLemmas) gives the value
+            A = ex.st.heap[recv.id]
+            r, cval = ex.contract.one_hot_sum(ex.frame.env)
+            i = z3.Int("i!oh")
+            ex.check(z3.And(0 <= r, r < A.shape[0]), "safety", "sum:one-hot-position-in-range", lineno, aux=True)
+            ex.check(z3.ForAll([i], z3.Implies(z3.And(0 <= i, i < A.shape[0]), A.elems[i] == z3.If(i == r, cval, z3.RealVal(0)))),
+                     "safety", "sum:vector-is-one-hot", lineno, aux=True)
+            ex.assumed.add("cited lemma: the sum of a vector with a single non-zero entry is that entry (proved as base + step lemmas: OneHotSumLemmas)")
+            return SV(cval, TReal)
         if not (isinstance(recv, ParExecV) and name == "c16.execute"):
             return NotImplemented
         st = ex.st
         if len(args) != 1 or kwargs:
             raise Unsupported("execute(inputs) with callbacks")
         inputs = st.heap[args[0].id] if isinstance(args[0], Ref) else None
-        if not isinstance(inputs, ListObj) or not isinstance(inputs.t, TArr):
+        if not isinstance(inputs, ListObj) or not isinstance(inputs.t, (TArr, TCArr)):
             raise Unsupported("execute on something else than a list of arrays")
         w = recv.workers
         # one callable per input (otherwise the surplus tasks fail inside the workers: IndexError -> None output)
